@@ -26,6 +26,6 @@ META = dict(
          "(index not yet written) or exactly the chain being saved (C12_first_save_crash_linear). For EVERY storage image that passes StoreOK (each indexed branch file non-empty and "
          "internally linked, index headed by a root file, main files present) Load succeeds and reports a linked best chain of stored headers ending in the heaviest linkable "
          "branch (C12_load_any_image_sound, by an order-of-acceptance invariant over Link; the executable StoreOK test is proved sound and run on every loaded image). For every generated history every prefix of every "
-         "Clean/Save write sequence is materialised and loaded by the real code and by the model; the monitor checks load success, linkage, that the tip was accepted, and work against the last completed Save.",
+         "Clean/Save write sequence is materialised and loaded by the real code and by the model; the monitor checks load success, linkage, that the tip was accepted, and work against the last completed Save. In the linear world every prefix of the write sequence of EVERY Save and Clean (any generation, incl. the automatic clean) loads without error and reports genesis-only (no index ever written), the chain as last stored or the chain being stored (C12_linear_crash_any_save / _any_clean).",
     note=COMMON_NOTE + "Each individual key write is assumed atomic (as the property states). Partial: see evidence.",
 )
